@@ -162,6 +162,7 @@ Lemma bool_eqb_refl b : bool_eqb b b = true. Proof. destruct b; reflexivity. Qed
 Lemma matches_intro tv x u :
   let L := x_olayers x in let D := x_defaults x in
   u_service u = x_service x -> u_from u = x_from x -> u_to u = x_to x -> u_type u = x_type x ->
+  u_route u = x_route x ->
   u_groups u = fs emp_list [] (map o_groups L ++ [o_groups D]) ->
   u_domains u = fs emp_list [] (map o_domains L ++ [o_domains D]) ->
   u_addresses u = fs emp_list [] (map o_addresses L ++ [o_addresses D]) ->
@@ -179,16 +180,23 @@ Lemma matches_intro tv x u :
   u_hmac u = is_some (map_get (x_service x ++ lit_signing_key) tv) ->
   matches tv x u = true.
 Proof.
-  intros L D H1 H2 H3 H4 H5 H6 H7 H8 H9 H10 H11 H12 H13 H14 H15 H16 H17 H18 H19.
+  intros L D H1 H2 H3 H4 HR H5 H6 H7 H8 H9 H10 H11 H12 H13 H14 H15 H16 H17 H18 H19.
   unfold matches. fold L. fold D.
-  rewrite H1, H2, H3, H4, H5, H6, H7, H8, H9, H10, H11, H12, H13, H14, H15, H16, H19.
+  rewrite H1, H2, H3, H4, HR, H5, H6, H7, H8, H9, H10, H11, H12, H13, H14, H15, H16, H19.
   rewrite (map_matches_of _ _ H17), (map_matches_of _ _ H18).
   unfold Z_eqb. rewrite !str_eqb_refl, !Z.eqb_refl, !bool_eqb_refl.
   repeat (rewrite (proj2 (strs_eqb_eq _ _) eq_refl)). reflexivity.
 Qed.
 
-Definition final (E : env) (u0 : upstream0) (k : N) : upstream :=
-  set_hmac (tuple_of (e_defaults E) u0 k) (has_key (e_tvars E) (u0_service u0)).
+Definition final (O : oracle) (E : env) (u0 : upstream0) (k : N) : upstream :=
+  set_hmac (tuple_of O (e_defaults E) u0 k) (has_key (e_tvars E) (u0_service u0)).
+
+Lemma route_parts_spec O r k : route_kind O r = Ok k ->
+  route_parts O r k = spec_route_parts O (rc_from r) (rc_to r) (rc_type r).
+Proof.
+  intros H. apply route_kind_ok in H. unfold route_parts, spec_route_parts.
+  destruct H as [[-> [[T|T] _]]|[-> [T _]]]; rewrite T; reflexivity.
+Qed.
 
 Definition sel_up0 (t : sel) : upstream0 :=
   MU0 (sl_name t) (merge_route true (b_route (sl_d t)) (b_route (sl_c t)))
@@ -219,21 +227,24 @@ Lemma env_wf_maps E : env_wf E = true ->
   o_header_overrides (e_defaults E) = [] /\ o_inject_headers (e_defaults E) = [].
 Proof. unfold env_wf. intros H. apply andb_true_iff in H as [H1 H2]. split; apply is_nil_true; assumption. Qed.
 
-Lemma matches_main E t k :
+Lemma matches_main O E t k :
   env_wf E = true -> sel_wf t -> sel_d6 t = false ->
-  matches (e_tvars E) (expect (sl_name t) [b_route (sl_c t); b_route (sl_d t)] (e_defaults E) (sel_d6 t))
-          (final E (strip (sel_up0 t)) k) = true.
+  route_kind O (u0_route (strip (sel_up0 t))) = Ok k ->
+  matches (e_tvars E) (expect O (sl_name t) [b_route (sl_c t); b_route (sl_d t)] (e_defaults E) (sel_d6 t))
+          (final O E (strip (sel_up0 t)) k) = true.
 Proof.
-  intros HE [Wc Wd] H6. destruct (env_wf_maps E HE) as [D1 D2].
+  intros HE [Wc Wd] H6 HK. destruct (env_wf_maps E HE) as [D1 D2].
   unfold block_wf in Wc, Wd. apply andb_true_iff in Wc as [Wc _]. apply andb_true_iff in Wd as [Wd _].
   destruct (route_wf_onodup _ Wc) as [Nc1 Nc2]. destruct (route_wf_onodup _ Wd) as [Nd1 Nd2].
-  unfold sel_d6 in H6.
+  unfold sel_d6 in H6. apply route_parts_spec in HK.
   set (c := b_route (sl_c t)) in *. set (d := b_route (sl_d t)) in *.
-  apply matches_intro; cbn -[effective_opts merge_route fs].
+  apply matches_intro; cbn -[effective_opts merge_route fs route_parts spec_route_parts].
   - reflexivity.
   - apply mg_true_fs, @emp_list_nil.
   - apply mg_true_fs, @emp_list_nil.
   - apply mg_true_fs, @emp_list_nil.
+  - cbn -[route_parts spec_route_parts merge_route fs] in HK. rewrite HK. cbn -[spec_route_parts fs].
+    rewrite !(mg_true_fs emp_list []) by apply @emp_list_nil. reflexivity.
   - apply (main_layers emp_list o_groups fld_groups _ d c H6).
   - apply (main_layers emp_list o_domains fld_domains _ d c H6).
   - apply (main_layers emp_list o_addresses fld_addresses _ d c H6).
@@ -251,23 +262,31 @@ Proof.
   - unfold has_key, is_some. reflexivity.
 Qed.
 
-Lemma matches_extra E t e k :
+Lemma matches_extra O E t e k :
   env_wf E = true -> sel_wf t -> route_wf e = true -> sel_d6 t = false ->
-  matches (e_tvars E) (expect (sl_name t) [e; b_route (sl_c t); b_route (sl_d t)] (e_defaults E) (sel_d6 t))
-          (final E (resolve_extra (sel_up0 t) e) k) = true.
+  route_kind O (u0_route (resolve_extra (sel_up0 t) e)) = Ok k ->
+  matches (e_tvars E) (expect O (sl_name t) [e; b_route (sl_c t); b_route (sl_d t)] (e_defaults E) (sel_d6 t))
+          (final O E (resolve_extra (sel_up0 t) e) k) = true.
 Proof.
-  intros HE [Wc Wd] We H6. destruct (env_wf_maps E HE) as [D1 D2].
+  intros HE [Wc Wd] We H6 HK. destruct (env_wf_maps E HE) as [D1 D2].
   unfold block_wf in Wc, Wd. apply andb_true_iff in Wc as [Wc _]. apply andb_true_iff in Wd as [Wd _].
   destruct (route_wf_onodup _ Wc) as [Nc1 Nc2]. destruct (route_wf_onodup _ Wd) as [Nd1 Nd2].
   destruct (route_wf_onodup _ We) as [Ne1 Ne2].
-  unfold sel_d6 in H6. unfold sel_up0.
+  unfold sel_d6 in H6. apply route_parts_spec in HK. unfold sel_up0 in *.
   set (c := b_route (sl_c t)) in *. set (d := b_route (sl_d t)) in *.
-  set (ex := mg emp_list true (b_extra (sl_d t)) (b_extra (sl_c t))).
-  apply matches_intro; cbn -[effective_opts merge_route fs resolve_extra].
+  set (ex := mg emp_list true (b_extra (sl_d t)) (b_extra (sl_c t))) in *.
+  assert (EF : rc_from (u0_route (resolve_extra (MU0 (sl_name t) (merge_route true d c) ex) e)) = fs emp_list [] [rc_from e; rc_from c; rc_from d]).
+  { cbn -[fs]. apply mg_false_fs; [apply @emp_list_nil | apply mg_true_fs, @emp_list_nil]. }
+  assert (ET : rc_to (u0_route (resolve_extra (MU0 (sl_name t) (merge_route true d c) ex) e)) = fs emp_list [] [rc_to e; rc_to c; rc_to d]).
+  { cbn -[fs]. apply mg_false_fs; [apply @emp_list_nil | apply mg_true_fs, @emp_list_nil]. }
+  assert (EY : rc_type (u0_route (resolve_extra (MU0 (sl_name t) (merge_route true d c) ex) e)) = fs emp_list [] [rc_type e; rc_type c; rc_type d]).
+  { cbn -[fs]. apply mg_false_fs; [apply @emp_list_nil | apply mg_true_fs, @emp_list_nil]. }
+  apply matches_intro; cbn -[effective_opts merge_route fs resolve_extra route_parts spec_route_parts].
   - simpl. destruct (sl_name t); reflexivity.
-  - cbn -[fs]. apply mg_false_fs; [apply @emp_list_nil | apply mg_true_fs, @emp_list_nil].
-  - cbn -[fs]. apply mg_false_fs; [apply @emp_list_nil | apply mg_true_fs, @emp_list_nil].
-  - cbn -[fs]. apply mg_false_fs; [apply @emp_list_nil | apply mg_true_fs, @emp_list_nil].
+  - exact EF.
+  - exact ET.
+  - exact EY.
+  - rewrite HK, EF, ET, EY. reflexivity.
   - apply (extra_layers emp_list o_groups fld_groups _ (sl_name t) d c ex e H6).
   - apply (extra_layers emp_list o_domains fld_domains _ (sl_name t) d c ex e H6).
   - apply (extra_layers emp_list o_addresses fld_addresses _ (sl_name t) d c ex e H6).
@@ -317,13 +336,13 @@ Proof.
   constructor; [|apply IH; assumption]. split; simpl; apply block_or_empty_wf; assumption.
 Qed.
 
-Definition Rel (E : env) (x : expected) (u0 : upstream0) : Prop :=
-  x_d6 x = false -> forall k, matches (e_tvars E) x (final E u0 k) = true.
+Definition Rel (O : oracle) (E : env) (x : expected) (u0 : upstream0) : Prop :=
+  x_d6 x = false -> forall k, route_kind O (u0_route u0) = Ok k -> matches (e_tvars E) x (final O E u0 k) = true.
 
-Definition mainx (E : env) (t : sel) : expected :=
-  expect (sl_name t) [b_route (sl_c t); b_route (sl_d t)] (e_defaults E) (sel_d6 t).
-Definition extrax (E : env) (t : sel) (e : routecfg) : expected :=
-  expect (sl_name t) [e; b_route (sl_c t); b_route (sl_d t)] (e_defaults E) (sel_d6 t).
+Definition mainx (O : oracle) (E : env) (t : sel) : expected :=
+  expect O (sl_name t) [b_route (sl_c t); b_route (sl_d t)] (e_defaults E) (sel_d6 t).
+Definition extrax (O : oracle) (E : env) (t : sel) (e : routecfg) : expected :=
+  expect O (sl_name t) [e; b_route (sl_c t); b_route (sl_d t)] (e_defaults E) (sel_d6 t).
 
 Lemma sel_extras_spec t : sel_extras t = u0_extra (sel_up0 t).
 Proof. unfold sel_extras. simpl. symmetry. apply mg_true_fs. apply @emp_list_nil. Qed.
@@ -338,15 +357,15 @@ Proof.
   - apply Wc; assumption.
 Qed.
 
-Lemma rel_mains E S : env_wf E = true -> Forall sel_wf S ->
-  Forall2 (Rel E) (map (mainx E) S) (map strip (map sel_up0 S)).
+Lemma rel_mains O E S : env_wf E = true -> Forall sel_wf S ->
+  Forall2 (Rel O E) (map (mainx O E) S) (map strip (map sel_up0 S)).
 Proof.
   intros HE. induction 1 as [|t S Wt _ IH]; simpl; constructor; [|assumption].
-  intros H6 k. apply matches_main; assumption.
+  intros H6 k HK. apply matches_main; assumption.
 Qed.
 
-Lemma rel_extras E S : env_wf E = true -> Forall sel_wf S ->
-  Forall2 (Rel E) (flat_map (fun t => map (extrax E t) (sel_extras t)) S)
+Lemma rel_extras O E S : env_wf E = true -> Forall sel_wf S ->
+  Forall2 (Rel O E) (flat_map (fun t => map (extrax O E t) (sel_extras t)) S)
           (flat_map (fun p => map (resolve_extra p) (u0_extra p)) (map sel_up0 S)).
 Proof.
   intros HE. induction 1 as [|t S Wt _ IH]; cbn [flat_map map]; [constructor|].
@@ -354,12 +373,12 @@ Proof.
   rewrite <- sel_extras_spec.
   assert (W : forall e, In e (sel_extras t) -> route_wf e = true) by (intros e; apply sel_extras_wf; assumption).
   induction (sel_extras t) as [|e l IHl]; simpl; constructor.
-  - intros H6 k. apply matches_extra; try assumption. apply W; left; reflexivity.
+  - intros H6 k HK. apply matches_extra; try assumption. apply W; left; reflexivity.
   - apply IHl. intros e' He'. apply W; right; assumption.
 Qed.
 
-Lemma spec_expected_rel E d : env_wf E = true -> doc_wf d = true ->
-  Forall2 (Rel E) (spec_expected E d) (routes (e_cluster E) d).
+Lemma spec_expected_rel O E d : env_wf E = true -> doc_wf d = true ->
+  Forall2 (Rel O E) (spec_expected O E d) (routes (e_cluster E) d).
 Proof.
   intros HE Hd. unfold spec_expected, routes, expand_extras. rewrite select_spec.
   pose proof (spec_selected_wf (e_cluster E) d Hd) as W.
@@ -367,14 +386,14 @@ Proof.
 Qed.
 
 Lemma rel_resolved O E X cs ups :
-  Forall2 (Rel E) X cs -> Forall2 (resolved_as O E) cs ups ->
+  Forall2 (Rel O E) X cs -> Forall2 (resolved_as O E) cs ups ->
   forall2b (fun x u => matches (e_tvars E) x u || x_d6 x) X ups = true.
 Proof.
   intros H; revert ups; induction H as [|x u0 X cs Hx _ IH]; intros ups H2; inversion H2; subst; simpl; [reflexivity|].
   rewrite IH; [|assumption]. rewrite andb_true_r.
   destruct (x_d6 x) eqn:D; [apply orb_true_r|]. rewrite orb_false_r.
-  match goal with H : resolved_as _ _ _ _ |- _ => destruct H as [k [_ ->]] end.
-  apply (Hx D k).
+  match goal with H : resolved_as _ _ _ _ |- _ => destruct H as [k [[_ [_ [_ [HK _]]]] ->]] end.
+  apply (Hx D k HK).
 Qed.
 
 (* ---- reflexivity of the tuple comparison ---- *)
@@ -393,7 +412,7 @@ Proof. intros H. induction l as [|x l IH]; simpl; [reflexivity | rewrite H, IH; 
 
 (* ---- the fail-closed clauses hold of everything the model accepts ---- *)
 Lemma fc_elem O E u0 k :
-  elem_ok O E u0 k -> has_allow_rule (final E u0 k) = true -> fail_closed_b O (final E u0 k) = true.
+  elem_ok O E u0 k -> has_allow_rule (final O E u0 k) = true -> fail_closed_b O (final O E u0 k) = true.
 Proof.
   intros [Hs [Hf [Ht [Hr [Hre _]]]]] Hal.
   apply route_kind_ok in Hr. apply has_allow_rule_spec in Hal.
@@ -411,7 +430,7 @@ Lemma fc_model O E cs ups :
 Proof.
   induction 1 as [|u0 u cs ups [k [Hk ->]] _ IH]; simpl; intros H; [reflexivity|].
   apply andb_true_iff in H as [H1 H2]. rewrite IH; [|assumption].
-  fold (final E u0 k). rewrite (fc_elem O E u0 k Hk H1). reflexivity.
+  fold (final O E u0 k). rewrite (fc_elem O E u0 k Hk H1). reflexivity.
 Qed.
 
 Lemma forall2b_no_d6 tv X ups :
@@ -422,9 +441,9 @@ Proof.
   rewrite Hx, orb_false_r, IH. reflexivity.
 Qed.
 
-Lemma spec_expected_no_d6 E d :
+Lemma spec_expected_no_d6 O E d :
   forallb (fun t => negb (sel_d6 t)) (spec_selected (e_cluster E) d) = true ->
-  Forall (fun x => x_d6 x = false) (spec_expected E d).
+  Forall (fun x => x_d6 x = false) (spec_expected O E d).
 Proof.
   intros H. rewrite forallb_forall in H. unfold spec_expected. apply Forall_app. split.
   - apply Forall_forall. intros x Hx. apply in_map_iff in Hx as [t [<- Ht]]. simpl.
@@ -440,23 +459,23 @@ Definition to_obs (m : result (list upstream)) : option (list upstream) :=
    document that respect the harness guards (distinct header keys, no header maps among the
    deployment defaults): judgement 0, or 101 (known finding 1) — and always 0 when no selected
    service carries `options:` in both its default and its cluster block. *)
-Theorem judge_load_model E urls res digs d :
+Theorem judge_load_model E T d :
   doc_wf (subst_doc (e_tvars E) d) = true -> env_wf E = true ->
-  let c := CLoad E urls res digs d (to_obs (set_upstream_configs (oracle_of urls res digs) E d)) in
+  let c := CLoad E T d (to_obs (set_upstream_configs (oracle_of T) E d)) in
   (judge c = 0 \/ judge c = 101) /\
   (forallb (fun t => negb (sel_d6 t)) (spec_selected (e_cluster E) (subst_doc (e_tvars E) d)) = true -> judge c = 0).
 Proof.
   intros Hd HE. cbv zeta. unfold judge. rewrite Hd, HE. simpl negb.
-  destruct (set_upstream_configs (oracle_of urls res digs) E d) as [ups|e] eqn:S; simpl to_obs.
+  destruct (set_upstream_configs (oracle_of T) E d) as [ups|e] eqn:S; simpl to_obs.
   - assert (RM : result_matches (Ok ups) (Some ups) = true).
     { simpl. apply forall2b_refl. apply upstream_eqb_refl. }
     rewrite RM. simpl negb. simpl orb.
     apply set_upstream_configs_ok in S as [L R]. unfold load_configs in L. apply load_resolved_elems in L.
     rewrite (fc_model _ _ _ _ L R).
-    pose proof (rel_resolved _ E _ _ _ (spec_expected_rel E _ HE Hd) L) as OD. rewrite OD.
+    pose proof (rel_resolved _ E _ _ _ (spec_expected_rel (oracle_of T) E _ HE Hd) L) as OD. rewrite OD.
     split.
-    + destruct (forall2b (matches (e_tvars E)) (spec_expected E (subst_doc (e_tvars E) d)) ups); simpl; auto.
-    + intros H6. rewrite (forall2b_no_d6 _ _ _ (spec_expected_no_d6 E _ H6)), OD. reflexivity.
+    + destruct (forall2b (matches (e_tvars E)) (spec_expected (oracle_of T) E (subst_doc (e_tvars E) d)) ups); simpl; auto.
+    + intros H6. rewrite (forall2b_no_d6 _ _ _ (spec_expected_no_d6 (oracle_of T) E _ H6)), OD. reflexivity.
   - simpl. split; [left; reflexivity | intros _; reflexivity].
 Qed.
 
@@ -516,10 +535,37 @@ Theorem field_by_field_d6_free O E d ups :
   doc_wf (subst_doc (e_tvars E) d) = true -> env_wf E = true ->
   forallb (fun t => negb (sel_d6 t)) (spec_selected (e_cluster E) (subst_doc (e_tvars E) d)) = true ->
   set_upstream_configs O E d = Ok ups ->
-  forall2b (matches (e_tvars E)) (spec_expected E (subst_doc (e_tvars E) d)) ups = true.
+  forall2b (matches (e_tvars E)) (spec_expected O E (subst_doc (e_tvars E) d)) ups = true.
 Proof.
   intros Hd HE H6 S.
   apply set_upstream_configs_ok in S as [L R]. unfold load_configs in L. apply load_resolved_elems in L.
-  rewrite (forall2b_no_d6 _ _ _ (spec_expected_no_d6 E _ H6)).
-  apply (rel_resolved _ E _ _ _ (spec_expected_rel E _ HE Hd) L).
+  rewrite (forall2b_no_d6 _ _ _ (spec_expected_no_d6 O E _ H6)).
+  apply (rel_resolved _ E _ _ _ (spec_expected_rel O E _ HE Hd) L).
+Qed.
+
+(* ---- validators built by proxy.New, asked through the login callback ---- *)
+From V Require Validators Corr_C11 Corr_C11_proofs.
+
+Definition admit_rows (ids : list (str * list str)) (pols : list Validators.policy) : list (list N) :=
+  map (fun p => map (fun id => if Validators.login_admit lower_ascii p (fst id) (Validators.GroupsOk (snd id))
+                               then 1 else 0) ids) pols.
+
+Lemma rows_eqb_refl (l : list (list N)) : list_eqb (list_eqb N.eqb) l l = true.
+Proof.
+  apply (list_eqb_spec (list_eqb N.eqb)); [|reflexivity].
+  intros x y. apply list_eqb_spec. intros; apply N.eqb_eq.
+Qed.
+
+(* the monitor (documented any-of rule on the upstream's own lists) accepts the model of
+   proxy.New's validators for every set of identities and every list of policies *)
+Theorem judge_admit_model ids pols : judge (CAdmit ids pols (admit_rows ids pols)) = 0.
+Proof.
+  unfold judge. fold (admit_rows ids pols). rewrite rows_eqb_refl. simpl negb.
+  destruct (forallb (fun p => Corr_C11.dom_guard lower_ascii (Validators.p_domains p)) pols) eqn:G; simpl; [|reflexivity].
+  rewrite forallb_forall in G.
+  assert (E : map (fun p => map (fun id => if Corr_C11.spec_admit lower_ascii p (fst id) (Validators.GroupsOk (snd id)) then 1 else 0) ids) pols
+              = admit_rows ids pols).
+  { unfold admit_rows. apply map_ext_in. intros p Hp. apply map_ext. intros id.
+    rewrite (Corr_C11_proofs.spec_admit_model lower_ascii p (fst id) (Validators.GroupsOk (snd id)) (G p Hp)). reflexivity. }
+  rewrite E, rows_eqb_refl. reflexivity.
 Qed.
